@@ -66,6 +66,10 @@ EXPLANATION += (
     ' Round 6: the recorded statistics path is tried before a same-named file beside the marker file (R-PROV/recorded-path-first).'
 )
 
+EXPLANATION += (
+    ' Round 7: an output file that is appended to is first created or replaced by the stage (R-FRESH/output-created-afresh).'
+)
+
 RULE_TEXT = (
     "one obligation per (CLI runner, input key), per write effect root, "
     "per temp acquisition and exit-set mode, per listing, per worker "
@@ -113,6 +117,7 @@ def check(ctx):
     check_own_listing(ctx, pa)
     check_worker_outputs(ctx, pa)
     check_recorded_path_first(ctx)
+    check_outputs_created_afresh(ctx, pa)
     # settings this property depends on are handed down every call
     # chain, never left to a callee's default (sa/rules/forwarding.py)
     from ..rules.forwarding import check_forwarding
@@ -793,3 +798,79 @@ def _possible_first_elements(fi, cfg, rd, listname, loop):
                 out.append((an, e))
                 break
     return out
+
+
+def _write_creates(e):
+    """does this write effect create / replace the file (True), or add to
+    whatever is there (False)?  None: not a file-open we can read"""
+    site = e.site
+    if not isinstance(site, ast.Call):
+        return None
+    f = site.func
+    nm = f.attr if isinstance(f, ast.Attribute) else (
+        f.id if isinstance(f, ast.Name) else None)
+    if nm in ('File', 'open'):
+        mode = None
+        pos = 1
+        if len(site.args) > pos:
+            mode = site.args[pos]
+        for k in site.keywords:
+            if k.arg == 'mode':
+                mode = k.value
+        if mode is None:
+            return None
+        if isinstance(mode, ast.Constant) and isinstance(mode.value, str):
+            m = mode.value
+            if 'w' in m or 'x' in m:
+                return True
+            if 'a' in m or '+' in m:
+                return False
+        return None
+    # move / copy / replace into place, DataFrame.to_csv, AnnData.write...
+    return True
+
+
+def check_outputs_created_afresh(ctx, pa):
+    """what a stage leaves at its output location is the result of this
+    run: among everything the stage does to an output *file* there is at
+    least one step that creates or replaces it (an open with 'w', a move
+    or copy into place, a to_csv / write_h5ad).  If every write is an
+    append-mode open, the stage builds on whatever an earlier run left at
+    that path -- it fails on names that already exist, or silently carries
+    stale datasets into the new output."""
+    db = ctx.db
+    rule = 'R-FRESH/output-created-afresh'
+    n = 0
+    for (rci, sci) in PK.runners(db):
+        run = db.find_method(rci, 'run')
+        if run is None:
+            continue
+        fields = PK.schema_path_keys(db, sci)
+        kinds = {PK.key_root('self.args', keys): kind
+                 for keys, kind in fields.items()}
+        effs = pa.effects(run)
+        for root, kind in sorted(kinds.items()):
+            if not kind.startswith('Output'):
+                continue
+            ws = [e for e in effs if e.kind == 'write'
+                  and e.root == root and e.rel == 'same']
+            judged = [(e, _write_creates(e)) for e in ws]
+            appends = [e for (e, c) in judged if c is False]
+            creates = [e for (e, c) in judged if c is True]
+            unknown = [e for (e, c) in judged if c is None]
+            if not appends:
+                continue
+            n += 1
+            ok = bool(creates) or bool(unknown)
+            e = appends[0]
+            ctx.ob(rule, f'{rci.qual}:{root}', e.fi.loc(e.site), ok,
+                   f'`{root}` is created or replaced by the stage before '
+                   f'it is added to ({len(creates)} creating, '
+                   f'{len(appends)} appending write(s))' if ok else
+                   f'{rci.name} only ever opens its output `{root}` in '
+                   'append mode: the result depends on what an earlier '
+                   'run left at that path',
+                   witness=e.chain())
+    if n < 3:
+        raise AnalysisError(f'only {n} output files with append-mode '
+                            'writes found among the runners')
